@@ -113,7 +113,7 @@ func trueQuadTree(t tms20.TileMatrixSet) bool {
 func checkC14(e *env) {
 	r := e.res
 	r.Rule = "all 14 built-in tile matrix sets as they are, and for every set accepted by IsQuadTree every tile matrix x every single-field perturbation: matrix width/height +1, -1, x2 (each alone and both), tile width/height x2 (each alone and both), " +
-		"origin x/y +1, corner flipped, cell size replaced by previous/1.989, /1.99, /2.01, /2.011 (tolerance borders), id gap (a middle matrix removed), id text 'x', '01', '+N', '', a variable-width row added; " +
+		"origin x/y +1, corner flipped, cell size replaced by previous/1.989, /1.99, /2.01, /2.011 (tolerance borders), id gap (a middle matrix removed), ids not starting at 0 (the first 1..3 matrices removed, all ids shifted by 1 and by 5), id text 'x', '01', '+N', '', a variable-width row added; " +
 		"IsQuadTree's verdict (accept / which check rejects) against the model and against the declarative true-quadtree predicate; the binary is run on every built-in set to see an error message, never a stack trace. Enumerated completely (exhaustive)."
 	accepted := map[string]bool{}
 	for _, name := range builtinNames {
@@ -214,6 +214,26 @@ func checkC14(e *env) {
 				delete(c.TileMatrices, id)
 				one(c, fmt.Sprintf("id %d removed (gap)", id), true)
 			}
+		}
+		// ids that do not start at 0: the first matrices removed, and all ids shifted by one and by five
+		for k := 1; k < len(ids) && k <= 3; k++ {
+			c := cloneTMS(t)
+			for _, id := range ids[:k] {
+				delete(c.TileMatrices, id)
+			}
+			one(c, fmt.Sprintf("first %d matrices removed", k), false)
+		}
+		for _, shift := range []int{1, 5} {
+			c := cloneTMS(t)
+			c.TileMatrices = map[tms20.TMID]tms20.TileMatrix{}
+			for _, id := range ids {
+				tm := t.TileMatrices[id]
+				o := *tm.PointOfOrigin
+				tm.PointOfOrigin = &o
+				tm.ID = strconv.Itoa(id + shift)
+				c.TileMatrices[id+shift] = tm
+			}
+			one(c, fmt.Sprintf("all ids shifted by %d", shift), false)
 		}
 		e.flush()
 	}
